@@ -296,7 +296,11 @@ contract("_session:LDAPServer._process_incoming_message",
 
 # ------------------------------------------------------------------------------------------------ receive (C02, C05, C06, C08)
 _S = "(old(self._incoming_buffer) + data)"          # everything delivered so far that has not been returned as messages
-_RECV_ENS = ["old(self.state) != %s" % CLOSED,
+# designed terminations: an UnbindRequest, or an ExtendedResponse that is the notice of disconnection.  receive never returns
+# one of them as an ordinary message (C11: delivering a termination ends the session - any raise leaves it CLOSED, below)
+_TERM = lambda m: ("(isinstance(%s, UnbindRequest) or (isinstance(%s, ExtendedResponse) and %s.name == %s.value))" % (m, m, m, NOTICE))
+_NO_TERM_RETURNED = "forall(j, 0, len(result), not %s)" % _TERM("result[j]")
+_RECV_ENS = ["old(self.state) != %s" % CLOSED, _NO_TERM_RETURNED,
              # C02 / C06: exactly the messages of the complete top-level TLVs, in order; only an incomplete TLV is held back
              "result == msgs(%s, self._packing_options)" % _S,
              "self._incoming_buffer == residue(%s)" % _S,
@@ -316,7 +320,8 @@ _RECV_LOOP_B = dict(invariant=["msgs(data, self._packing_options) == cat_obj(inc
 
 def _recv_loops(extra_inv):
     return {0: _RECV_LOOP_A, 1: _RECV_LOOP_B,
-            2: dict(invariant=[VALID_STATE, "self.state != %s" % CLOSED, "self._outgoing_buffer == old(self._outgoing_buffer)"] + extra_inv)}
+            2: dict(invariant=[VALID_STATE, "self.state != %s" % CLOSED, "self._outgoing_buffer == old(self._outgoing_buffer)",
+                               "forall(j, 0, _i2, not %s)" % _TERM("incoming_msgs[j]")] + extra_inv)}
 
 
 contract("_session:LDAPServer/LDAPSession.receive",
